@@ -14,6 +14,7 @@ import (
 	"github.com/paulmach/orb/maptile"
 	"github.com/paulmach/orb/planar"
 	"github.com/paulmach/orb/project"
+	"go.mongodb.org/mongo-driver/bson"
 )
 
 // Extended coverage X07: small total functions. See spec/Misc.tla, spec/Misc_Trace.tla.
@@ -289,6 +290,89 @@ func init() {
 				r = append(r, orb.Point{float64(p[0]), float64(p[1])})
 			}
 			c.emit(map[string]interface{}{"k": "ringclosed", "r": rows, "closed": b2i(r.Closed()), "nt": 1})
+		}
+		// (6b) geojson helper types (Point .. MultiPolygon): same documents as Geometry, JSON and BSON, and back
+		for i := 0; i < c.pick(300, 3000); i++ {
+			pts := func(n int) []orb.Point {
+				out := make([]orb.Point, n)
+				for j := range out {
+					out[j] = orb.Point{float64(c.rng.Intn(9)), float64(c.rng.Intn(9))}
+				}
+				return out
+			}
+			var g orb.Geometry
+			e := map[string]interface{}{"k": "helpers", "json": 0, "bson": 0, "back": 0, "backb": 0, "lonlat": 0, "nt": 1}
+			site := guard(func() {
+				var jb, bb []byte
+				var backJ, backB orb.Geometry
+				switch i % 6 {
+				case 0:
+					v := geojson.Point(pts(1)[0])
+					g = orb.Point(v)
+					jb, _ = v.MarshalJSON()
+					bb, _ = v.MarshalBSON()
+					var a, b geojson.Point
+					if a.UnmarshalJSON(jb) == nil && b.UnmarshalBSON(bb) == nil {
+						backJ, backB = a.Geometry(), b.Geometry()
+					}
+				case 1:
+					v := geojson.MultiPoint(pts(1 + c.rng.Intn(3)))
+					g = orb.MultiPoint(v)
+					jb, _ = v.MarshalJSON()
+					bb, _ = v.MarshalBSON()
+					var a, b geojson.MultiPoint
+					if a.UnmarshalJSON(jb) == nil && b.UnmarshalBSON(bb) == nil {
+						backJ, backB = a.Geometry(), b.Geometry()
+					}
+				case 2:
+					v := geojson.LineString(pts(2 + c.rng.Intn(3)))
+					g = orb.LineString(v)
+					jb, _ = v.MarshalJSON()
+					bb, _ = v.MarshalBSON()
+					var a, b geojson.LineString
+					if a.UnmarshalJSON(jb) == nil && b.UnmarshalBSON(bb) == nil {
+						backJ, backB = a.Geometry(), b.Geometry()
+					}
+				case 3:
+					v := geojson.MultiLineString{orb.LineString(pts(2)), orb.LineString(pts(3))}
+					g = orb.MultiLineString(v)
+					jb, _ = v.MarshalJSON()
+					bb, _ = v.MarshalBSON()
+					var a, b geojson.MultiLineString
+					if a.UnmarshalJSON(jb) == nil && b.UnmarshalBSON(bb) == nil {
+						backJ, backB = a.Geometry(), b.Geometry()
+					}
+				case 4:
+					v := geojson.Polygon{orb.Ring(pts(4)), orb.Ring(pts(4))}
+					g = orb.Polygon(v)
+					jb, _ = v.MarshalJSON()
+					bb, _ = v.MarshalBSON()
+					var a, b geojson.Polygon
+					if a.UnmarshalJSON(jb) == nil && b.UnmarshalBSON(bb) == nil {
+						backJ, backB = a.Geometry(), b.Geometry()
+					}
+				default:
+					v := geojson.MultiPolygon{{orb.Ring(pts(4))}, {orb.Ring(pts(5)), orb.Ring(pts(4))}}
+					g = orb.MultiPolygon(v)
+					jb, _ = v.MarshalJSON()
+					bb, _ = v.MarshalBSON()
+					var a, b geojson.MultiPolygon
+					if a.UnmarshalJSON(jb) == nil && b.UnmarshalBSON(bb) == nil {
+						backJ, backB = a.Geometry(), b.Geometry()
+					}
+				}
+				wj, _ := geojson.NewGeometry(g).MarshalJSON()
+				wb, _ := bson.Marshal(geojson.NewGeometry(g))
+				e["json"], e["bson"] = b2i(string(jb) == string(wj)), b2i(string(bb) == string(wb))
+				e["back"], e["backb"] = b2i(backJ != nil && orb.Equal(backJ, g)), b2i(backB != nil && orb.Equal(backB, g))
+				q := pts(1)[0]
+				e["lonlat"] = b2i(q.Lon() == q[0] && q.Lat() == q[1] && q.X() == q[0] && q.Y() == q[1] && q.Point() == q)
+			})
+			if site != "" {
+				c.emit(panicEvent("geojson helper types", site, nil))
+				continue
+			}
+			c.emit(e)
 		}
 		// (7) numeric relations, as residuals in units of 1e-12 (relative) / 1e-9 degree / millimetres
 		rel := func(a, b float64) int {
